@@ -644,11 +644,17 @@ pub fn run(run: &mut Run) -> Result<(), String> {
                 plan.raws.push((Box::new(EpExposure), b(0, 0)));
                 plan.raws.push((Box::new(Castle { extra: 0, ek_rank2: true }), b(0, 0)));
                 plan.raws.push((Box::new(EpUniverse::before_push(q)), b(d1, 0)));
-                plan.raws.push((Box::new(PinUniverse { kings: vec![4, 27] }), b(0, 0)));
+                plan.raws.push((Box::new(PinUniverse { kings: vec![4, 27], far_side: false }), b(0, 0)));
                 plan.raws.push((Box::new(EpStale), b(0, 0)));
                 plan.raws.push((Box::new(EpFile), b(0, 0)));
+                plan.raws.push((Box::new(PinUniverse { kings: vec![27, 36], far_side: true }), b(0, 0)));
+                plan.raws.push((Box::new(PromoUniverse { sliders: vec![Kind::R] }), b(d1, 0)));
+                plan.raws.push((Box::new(Material), b(0, 0)));
             } else {
-                plan.raws.push((Box::new(PinUniverse { kings: vec![4, 27, 0, 60, 36] }), b(0, 0)));
+                plan.raws.push((Box::new(PinUniverse { kings: vec![27, 36, 18, 45, 4], far_side: true }), b(0, 0)));
+                plan.raws.push((Box::new(PromoUniverse { sliders: vec![Kind::R, Kind::B, Kind::Q] }), b(d1, 0)));
+                plan.raws.push((Box::new(Material), b(d1, 0)));
+                plan.raws.push((Box::new(PinUniverse { kings: vec![4, 27, 0, 60, 36], far_side: false }), b(0, 0)));
                 plan.raws.push((Box::new(EpStale), b(0, 0)));
                 plan.raws.push((Box::new(EpFile), b(d1, 0)));
                 plan.raws.push((Box::new(Castle { extra: 1, ek_rank2: true }), b(0, 0)));
@@ -689,8 +695,10 @@ pub fn run(run: &mut Run) -> Result<(), String> {
                 plan.raws.push((Box::new(TwoLines { enemy_kings: vec![35] }), b(1, 1)));
                 plan.raws.push((Box::new(EpUniverse::own_sliders()), b(1, 0)));
                 plan.raws.push((Box::new(EpUniverse::before_push(q)), b(1, 0)));
+                plan.raws.push((Box::new(PromoUniverse { sliders: vec![Kind::R] }), b(1, 0)));
             } else {
                 plan.lines = Some(b(3, 2));
+                plan.raws.push((Box::new(PromoUniverse { sliders: vec![Kind::R, Kind::B, Kind::Q] }), b(1, 1)));
                 plan.raws.push((Box::new(EpUniverse::before_push(q)), b(1, 1)));
                 plan.raws.push((Box::new(TwoLines { enemy_kings: vec![35, 60, 63] }), b(1, 1)));
                 plan.raws.push((Box::new(DoubleCheck { kings: vec![4, 27], own_kinds: vec![Kind::P, Kind::N, Kind::R] }), b(1, 0)));
@@ -719,11 +727,14 @@ pub fn run(run: &mut Run) -> Result<(), String> {
                 plan.raws.push((Box::new(CastleBox { max_items: 2 }), b(0, 0)));
                 plan.raws.push((Box::new(EpExposure), b(0, 0)));
                 plan.raws.push((Box::new(Castle { extra: 0, ek_rank2: true }), b(0, 0)));
-                plan.raws.push((Box::new(PinUniverse { kings: vec![4, 27] }), b(0, 0)));
+                plan.raws.push((Box::new(PinUniverse { kings: vec![4, 27], far_side: false }), b(0, 0)));
+                plan.raws.push((Box::new(PinUniverse { kings: vec![27], far_side: true }), b(0, 0)));
                 plan.raws.push((Box::new(EpFile), b(0, 0)));
                 plan.lines = Some(b(1, 1));
             } else {
-                plan.raws.push((Box::new(PinUniverse { kings: vec![4, 27, 0, 60, 36] }), b(0, 0)));
+                plan.raws.push((Box::new(PinUniverse { kings: vec![27, 36, 18], far_side: true }), b(0, 0)));
+                plan.raws.push((Box::new(Material), b(0, 0)));
+                plan.raws.push((Box::new(PinUniverse { kings: vec![4, 27, 0, 60, 36], far_side: false }), b(0, 0)));
                 plan.raws.push((Box::new(EpStale), b(0, 0)));
                 plan.raws.push((Box::new(EpFile), b(0, 0)));
                 plan.raws.push((Box::new(Castle { extra: 1, ek_rank2: true }), b(0, 0)));
@@ -755,10 +766,10 @@ pub fn run(run: &mut Run) -> Result<(), String> {
                 plan.raws.push((Box::new(DoubleCheck { kings: vec![4], own_kinds: vec![Kind::P] }), b(0, 0)));
                 plan.raws.push((Box::new(CheckPin { kings: vec![27] }), b(0, 0)));
                 plan.raws.push((Box::new(EpExposure), b(0, 0)));
-                plan.raws.push((Box::new(PinUniverse { kings: vec![27] }), b(0, 0)));
+                plan.raws.push((Box::new(PinUniverse { kings: vec![27], far_side: false }), b(0, 0)));
                 plan.lines = Some(b(1, 0));
             } else {
-                plan.raws.push((Box::new(PinUniverse { kings: vec![4, 27] }), b(0, 0)));
+                plan.raws.push((Box::new(PinUniverse { kings: vec![4, 27], far_side: false }), b(0, 0)));
                 plan.raws.push((Box::new(EpFile), b(0, 0)));
                 plan.raws.push((Box::new(EpExposure), b(0, 0)));
                 plan.raws.push((Box::new(CheckPin { kings: vec![4, 27] }), b(0, 0)));
